@@ -364,8 +364,11 @@ def rep(rng, K, P):
         return 'z=1', jac(K, P)
     if c < 0.45:
         return 'z=-1', jac(K, P, K.neg(K.one))
-    if c < 0.55:
+    if c < 0.53:
         return 'z=small', jac(K, P, K.of(rng.choice([2, 3, 4])))
+    if c < 0.63 and K is K2:
+        # "almost one": real part 1 (or 0), imaginary part non-zero — looks normalised to a careless test
+        return 'z=1+bu', jac(K, P, (rng.choice([1, 1, 0]), rng.choice([1, q - 1, rng.randrange(1, q)])))
     return 'z=lambda', jac(K, P, nonzero(rng, K))
 
 
